@@ -244,6 +244,7 @@ func (s *Scorch) introduceSegment(next *segmentIntroduction) error {
 	atomic.StoreUint64(&s.stats.CurRootEpoch, s.root.epoch)
 	// release lock
 	s.rootLock.Unlock()
+	verifIntroduced(s, "segment", rootPrev, newSnapshot, next.ids, next.id)
 
 	if rootPrev != nil {
 		_ = rootPrev.DecRef()
@@ -331,6 +332,7 @@ func (s *Scorch) introducePersist(persist *persistIntroduction) {
 	s.root = newIndexSnapshot
 	atomic.StoreUint64(&s.stats.CurRootEpoch, s.root.epoch)
 	s.rootLock.Unlock()
+	verifIntroduced(s, "persist", rootPrev, newIndexSnapshot, nil, 0)
 
 	if rootPrev != nil {
 		_ = rootPrev.DecRef()
@@ -504,6 +506,7 @@ func (s *Scorch) introduceMerge(nextMerge *segmentMerge) {
 	atomic.StoreUint64(&s.stats.CurRootEpoch, s.root.epoch)
 	// release lock
 	s.rootLock.Unlock()
+	verifIntroduced(s, "merge", rootPrev, newSnapshot, nil, 0)
 
 	if rootPrev != nil {
 		_ = rootPrev.DecRef()
